@@ -1,3 +1,4 @@
 import NasdaqModel.Driver.Loop
 import NasdaqModel.Driver.GenHistory
-def main : IO Unit := NasdaqModel.Driver.mainLoop [NasdaqModel.Driver.GenHistoryD.handle]
+import NasdaqModel.Driver.GenReuse
+def main : IO Unit := NasdaqModel.Driver.mainLoop [NasdaqModel.Driver.GenHistoryD.handle, NasdaqModel.Driver.GenReuseD.handle]
